@@ -34,7 +34,7 @@ m = {
     "engines": [{
         "name": "lean4-proof+correspondence", "path": "/verif/check",
         "serves_properties": sorted(props.PROPS),
-        "kind_free_text": "Lean 4 theorems about a hand-written executable model (lean/FlacVerif), tied to /repo on every run by a differential line-protocol correspondence (harness/ -> lean fvdriver), exhaustive finite-domain sweeps and a translator for constants/config/tables",
+        "kind_free_text": "Lean 4 theorems about a hand-written executable model (lean/FlacVerif), tied to /repo on every run by a differential line-protocol correspondence (harness/ -> lean fvdriver), exhaustive finite-domain sweeps and a fail-closed Rust-subset -> Lean translator (tools/translate*.py, 17 parts) that regenerates a Lean reading of most of the crate's integer code on every run (constants, configuration, tables, header codes, writer, constructors/verify, sample delivery, decision logic, decoder, bit sinks, stream driver, thread programs, prediction kernels, Rice search, callees, parser, UTF-8-like writer) against which the hand model is PROVED equal (Theorems/*Gen*.lean)",
     }],
     "checks": checks,
     "not_applicable": na,
